@@ -3,7 +3,9 @@ from vf.runner import H, Spec
 
 def cubes_access(tier):
     if tier == "quick":
-        return [dict(lazy="d", op1=o, nops=2, _w=2) for o in range(7)] + [dict(lazy="d/s", op1=o, nops=2, _w=2) for o in (1, 2, 6)] + \
+        return [dict(lazy="d", op1=o, nops=2, ops2=[0, 1, 2, 3], _w=2) for o in range(7)] + \
+               [dict(lazy="d", op1=o, nops=2, ops2=[4, 5, 6], _w=2) for o in (0, 1, 4)] + \
+               [dict(lazy="d/s", op1=o, nops=2, ops2=[0, 1, 2], _w=2) for o in (1, 2, 6)] + \
                [dict(lazy="d", op1=1, nops=1, symshape=True)]
     out = [dict(lazy=l, op1=o, nops=2, shape=s, _w=2) for l in ("d", "d/s") for o in range(7)
            for s in ([1, 1, 1, 1], [1, 0, 1, 1], [0, 1, 1, 0], [1, 1, 0, 1])]
@@ -22,8 +24,8 @@ SPEC = Spec(
     title="Lazy directory loading, filtered views and the fs adaptor are transparent",
     harnesses=[
         H("access", "vf.harness.c17_lazy", "h_access", cubes_access, timeout={"quick": 500, "thorough": 1800},
-          bounds={"quick": "index over f, d/a, d/s/b (empty), d/s/c (duplicate) with `d` (or `d/s`) held as one unloaded directory-object entry; access "
-                           "sequences of 2 operations over {lookup, iterate prefix, ls, info, adaptor ls, adaptor info, adaptor open} x 7 keys (root, "
+          bounds={"quick": "index over f, d/a, d/s/b (empty), d/u/v/w (duplicate content, below an intermediate directory that holds no file) with `d` (or `d/s`) held as one unloaded directory-object entry; access "
+                           "sequences of 2 operations over {lookup, iterate prefix, ls, info, adaptor ls, adaptor info, adaptor open} x 8 keys (root, "
                            "files, directories, implicit sub-directory, absent key): first operation = cube, the rest symbolic",
                   "thorough": "4 tree shapes, sequences of 3 operations"},
           smoke=[{"args": dict(o2=1, o3=6, k1=2, k2=4, k3=5, p1=True, p2=True, p3=True), "cube": {"lazy": l, "op1": 3, "nops": 3}} for l in ("d", "d/s")],
